@@ -23,40 +23,57 @@ from snaxc.dialects import accfg
 State = dict[str, SSAValue]
 
 
-def infer_state_of(state_var: SSAValue) -> State:
+def infer_state_of(state_var: SSAValue, assumed: dict[SSAValue, State] | None = None) -> State:
     """
     Entrance function of the inference pass.
 
     This walks up the def-use chain to compute all values
     that are guaranteed to be set in this state.
+
+    `assumed` maps loop-carried block arguments to the state that is
+    assumed for them while the loop body is being inspected.
     """
+    if assumed is not None and state_var in assumed:
+        return dict(assumed[state_var])
     owner = state_var.owner
     match owner:
         case accfg.SetupOp(in_state=None) as setup_op:
             return {name: val for name, val in setup_op.iter_params()}
         case accfg.SetupOp(in_state=st) as setup_op if st is not None:
-            in_state = infer_state_of(st)
+            in_state = infer_state_of(st, assumed)
             in_state.update(dict(setup_op.iter_params()))
             return in_state
         case scf.IfOp() as if_op:
-            return state_intersection(*infer_states_for_if(if_op, state_var))
+            return state_intersection(*infer_states_for_if(if_op, state_var, assumed))
         case scf.ForOp() as for_op:
-            yield_op = for_op.body.block.last_op
-            assert isinstance(yield_op, scf.YieldOp)
             assert state_var in for_op.results  # this must be true because state_var.owner == for_op
-            return infer_state_of(yield_op.operands[for_op.results.index(state_var)])
+            # the loop may run zero or more times, so the state after the loop
+            # is the state that holds at the loop head on every iteration
+            block_arg = for_op.body.block.args[for_op.results.index(state_var) + 1]
+            return infer_state_of(block_arg, assumed)
         case Block() as block:
             match block.parent_op():
                 case scf.ForOp() as for_op:
                     assert isinstance(state_var, BlockArgument)  # must be a block argument for owner to be a block!
-                    return infer_state_of(for_op.iter_args[state_var.index - 1])
+                    # the state at the loop head is the state before the loop on the first
+                    # iteration, and the yielded state on all later ones. Only keep what both agree on.
+                    init_state = infer_state_of(for_op.iter_args[state_var.index - 1], assumed)
+                    yield_op = for_op.body.block.last_op
+                    assert isinstance(yield_op, scf.YieldOp)
+                    yielded_state = infer_state_of(
+                        yield_op.operands[state_var.index - 1],
+                        {**(assumed or {}), state_var: init_state},
+                    )
+                    return state_intersection(init_state, yielded_state)
                 case _:
                     return {}
         case _:
             raise ValueError(f"Cannot infer state for op {owner.name}")
 
 
-def infer_states_for_if(op: scf.IfOp, state: SSAValue) -> tuple[State, State]:
+def infer_states_for_if(
+    op: scf.IfOp, state: SSAValue, assumed: dict[SSAValue, State] | None = None
+) -> tuple[State, State]:
     """
     Walk both sides of the if/else block and return the computed
     states for the given state SSA value (`state`)
@@ -71,7 +88,7 @@ def infer_states_for_if(op: scf.IfOp, state: SSAValue) -> tuple[State, State]:
         assert isinstance(yield_op, scf.YieldOp)
         # we know the yield op has the same number of operands as the
         # scf.if has results, so [idx] must be defined
-        states.append(infer_state_of(yield_op.operands[idx]))
+        states.append(infer_state_of(yield_op.operands[idx], assumed))
     assert len(states) == 2
     return states[0], states[1]
 
